@@ -229,10 +229,8 @@ def load_one(lit: LineIterator, norm_threshold: float = 1e-4) -> dict:
 
     nelec = atnums.sum() - charge
     if coeffsb is None:
-        # restricted closed-shell
-        if nelec % 2 != 0:
-            raise LoadError("Odd number of electrons found in restricted case.", lit)
-        if abs(occsa.sum() - nelec) > 1e-7:
+        # restricted (closed-shell or open-shell); occupations are printed with 7 decimals
+        if abs(occsa.sum() - nelec) > 1e-7 * max(1, len(occsa)):
             raise LoadError("Occupation numbers are inconsistent with number of electrons", lit)
         mo = MolecularOrbitals(
             "restricted", coeffsa.shape[1], coeffsa.shape[1], occsa, coeffsa, energiesa, irrepsa
@@ -255,7 +253,7 @@ def load_one(lit: LineIterator, norm_threshold: float = 1e-4) -> dict:
                 ),
                 stacklevel=2,
             )
-        if abs(nelec - (nalpha + nbeta)) > 1e-7:
+        if abs(nelec - (nalpha + nbeta)) > 1e-7 * max(1, len(occsa) + len(occsb)):
             raise LoadError("Occupation numbers are inconsistent with number of electrons", lit)
         mo = MolecularOrbitals(
             "unrestricted",
